@@ -109,6 +109,13 @@ pub fn parse_until<'a, T: Parse + Clone + Debug>(
     }
 
     //
+    // `~` defers the combinator it stands in front of: it can't precede a `,`, a handler or nothing at all.
+    //
+    if deferred && next.and_then(GroupDeterminer::combinator).is_none() {
+        return Err(input.error("Expected combinator after `~`"));
+    }
+
+    //
     // Parses group determiner's tokens. (for ex. => -> |> etc.)
     //
     if let Some(group) = next {
